@@ -20,7 +20,7 @@ _WEIGHTS = [
     ('ready0', 4), ('ready1', 9),
     ('exit', 8), ('tomb', 6), ('tomb_term', 4), ('monitor', 9),
     ('monitor_restart', 4), ('fault', 5), ('finish_replace', 5),
-    ('clean', 9), ('late_created', 4),
+    ('clean', 9), ('late_created', 4), ('midsync', 4),
     ('restart', 7), ('node_start', 2),
 ]
 
@@ -250,6 +250,25 @@ class Gen:
                 elif r < 0.8:
                     ops.append(('deliver', rng.randrange(1, 3)))
                 return ops
+            if kind == 'midsync':
+                # the manager is inactive while the cache changes (an eviction and/or a placement); during the
+                # synchronisation that follows the readiness event the event manager unlinks one more entry,
+                # between the manager's listing of the cache and its look at the entry
+                if not cached:
+                    continue
+                self._composite = True
+                ops = [('drain',), ('ready', 0), ('drain',)]
+                others = [i for i in self.insts if i != inst]
+                for other in others[:2]:
+                    if os.path.exists(node.cache_path(other)):
+                        if rng.random() < 0.6:
+                            ops.append(('del', other))
+                    elif rng.random() < 0.7:
+                        ops.append(('put', other, self._new_gen(), False, _shape(rng)))
+                ops += [('fault', 'midsync_unlink', 1), ('ready', 1), ('drain',), ('fault', 'midsync_unlink', 0)]
+                if rng.random() < 0.7:
+                    ops += [('ready', 1), ('drain',)]       # the next heartbeat
+                return ops
             if kind == 'late_created':
                 # an instance is placed right after the cache became ready: the synchronisation triggered by .ready
                 # configures it before its own created event is read; the container ends, is handed to cleanup
@@ -367,7 +386,10 @@ class Run:
         except drv.ManagerCrash as crash:
             # _refresh_supervisor does not catch the s6 failure: the manager
             # process dies inside the handler and its supervisor restarts it
-            self.count('manager_crashes_on_s6_failure')
+            if 'vanished' in crash.where:
+                self.count('manager_crashes_on_cache_entry_vanished_during_sync')
+            else:
+                self.count('manager_crashes_on_s6_failure')
             ok = self._after('manager-crash', crash.where)
             node.restart_manager()
             return ok
